@@ -352,3 +352,4 @@ func verif_C06_data2() {
 	verifAssert(reps[10].code == 250, "C06.two-transactions-command-mode")
 	verifReach("C06.data2-end")
 }
+func verif_C06_two_messages() { verifTwoMessages("C06") }
